@@ -404,7 +404,16 @@ class Repo:
 
     def func(self, fq: str) -> FunctionInfo:
         mod, _, qual = fq.partition(":")
-        return self.module(mod).func(qual)
+        try:
+            return self.module(mod).func(qual)
+        except AnalysisError:
+            # moved to another module (see inline.normalise_function_renames)
+            from sa.inline import MOVED
+            for new_fq, old_fq in MOVED.items():
+                if old_fq == fq:
+                    m2, _, q2 = new_fq.partition(":")
+                    return self.module(m2).func(q2)
+            raise
 
     def cls(self, fq: str) -> ClassInfo:
         mod, _, name = fq.partition(":")
